@@ -289,7 +289,7 @@ func runCase(c *vlib.Ctx, w int, f fam, hist []string, line string) {
 
 func main() {
 	c := vlib.Init("exploration")
-	maxH := c.Pick(3, 4)
+	maxH := c.Pick(3, 6)
 	type job struct {
 		f    fam
 		hist []string
@@ -324,5 +324,5 @@ func main() {
 	})
 	c.Set("families", len(fams))
 	c.Assume = []string{"datum timestamps are compared only through timestamp() values the programs store in gauges (processing-time stamps differ between the two VMs by construction)", strings.TrimSpace("histogram metrics are not part of this family (their state cannot be populated through the public datum API)")}
-	c.Finish("12 program families built around per-VM carried state (strptime memo, time register, terminate flag, match registers, matched flag, runtime errors) × all (history, line) pairs with |history|<=3 (thorough 4) over each family's 4-6 line alphabet; VM with history vs fresh VM populated with the same metric values; distinct_nontrivial = distinct cases with a non-empty history")
+	c.Finish("12 program families built around per-VM carried state (strptime memo, time register, terminate flag, match registers, matched flag, runtime errors) × all (history, line) pairs with |history|<=3 (thorough 6) over each family's 4-6 line alphabet; VM with history vs fresh VM populated with the same metric values; distinct_nontrivial = distinct cases with a non-empty history")
 }
